@@ -190,6 +190,11 @@ class Gen:
                 p[rule[1]] = rule[2]
             elif rule[0] == "bytenot" and len(p) > rule[1] and p[rule[1]] == rule[2]:
                 p[rule[1]] = (rule[2] + 1) % 256
+        # TIM-VCOCAL SET: type 0 is the 1-byte "stop calibration" form, any other type the full form
+        if self.mode == 1 and self.name == "TIM-VCOCAL-V0" and p:
+            p[0] = 0
+        if self.mode == 1 and self.name == "TIM-VCOCAL" and p and p[0] == 0:
+            p[0] = 2
         return bytes(p)
 
     def emit_fixed(self, p):
